@@ -1469,8 +1469,9 @@ class VacancyMediated(object):
         :return Lvv1[3, 3]: vacancy-vacancy correction due to solute; needs to be multiplied by cv*cs/kBT
         """
         # 1. bare vacancy diffusivity and Green's function
-        vTK = vacancyThermoKinetics(pre=np.ones_like(bFV), betaene=bFV,
-                                    preT=np.ones_like(bFT0), betaeneT=bFT0)
+        # (copies: the key is stored in the cache dictionaries and must not alias arrays that the caller may edit later)
+        vTK = vacancyThermoKinetics(pre=np.ones_like(bFV), betaene=np.array(bFV, copy=True),
+                                    preT=np.ones_like(bFT0), betaeneT=np.array(bFT0, copy=True))
         GF = self.GFvalues.get(vTK)
         L0vv = self.Lvvvalues.get(vTK)
         etav = self.etavvalues.get(vTK)
